@@ -98,14 +98,22 @@ func (mailbox *BoundedMailbox) Dequeue() (msg *ReceiveContext) {
 
 // IsEmpty reports whether the mailbox currently has no messages.
 // This check is a snapshot and may change immediately under concurrency.
+//
+// A disposed mailbox reports empty: the underlying ring keeps its length after
+// Dispose while Get only returns an error, so Dequeue yields nothing more. Were
+// leftover messages still reported, the dispatcher would keep re-scheduling the
+// stopped actor forever (Dequeue nil, IsEmpty false) and its workers would spin.
 func (mailbox *BoundedMailbox) IsEmpty() bool {
-	return mailbox.underlying.Len() == 0
+	return mailbox.underlying.IsDisposed() || mailbox.underlying.Len() == 0
 }
 
 // Len returns the current number of messages in the mailbox.
 // The value is a snapshot and may change immediately after the call under
 // concurrency.
 func (mailbox *BoundedMailbox) Len() int64 {
+	if mailbox.underlying.IsDisposed() {
+		return 0
+	}
 	return int64(mailbox.underlying.Len())
 }
 
